@@ -7,6 +7,7 @@ import (
 	mrand "math/rand"
 	"strings"
 	"testing"
+	"time"
 
 	"github.com/elementsproject/peerswap/swap"
 	"github.com/vulpemventures/go-elements/confidential"
@@ -62,6 +63,10 @@ func makerScenario(r *Run, seed int64, chain, typ, ending string, attach func(p 
 		}
 		return 0, false
 	}
+	// in a third of the worlds the wallet's change outputs are larger than the swap output
+	if p.rng.Intn(3) == 0 {
+		mk.BtcW.ChangeValue = int64(p.amount)*2 + 12_345
+	}
 	mk.LbtcW.Layout = func() (int, int, bool) {
 		ch := 1 + p.rng.Intn(2)
 		return p.rng.Intn(ch + 1), ch, p.rng.Intn(4) == 0
@@ -84,6 +89,10 @@ func makerScenario(r *Run, seed int64, chain, typ, ending string, attach func(p 
 	if err := p.begin(0); err != nil {
 		r.Inconclusive("begin: " + err.Error())
 		return p
+	}
+	if p.slowStart {
+		p.w.Step() // the request reaches the responder: both sides have created the swap
+		time.Sleep(1100 * time.Millisecond)
 	}
 	p.w.Run()
 	switch ending {
@@ -275,7 +284,12 @@ func TestC08(t *testing.T) {
 		ct := allChainTypes[i%4]
 		seed := r.Seed*7919 + int64(i) + 1
 		var o *c08Obs
-		p := makerScenario(r, seed, ct.chain, ct.typ, "preimage", func(p *pair) { o = c08Attach(r, p, fmt.Sprintf("seed=%d case=%d", seed, i)) })
+		p := makerScenario(r, seed, ct.chain, ct.typ, "preimage", func(p *pair) {
+			o = c08Attach(r, p, fmt.Sprintf("seed=%d case=%d", seed, i))
+			// the first swap of every (chain, type) takes its time: more than a second between the creation of the
+			// swap and the funding (a slow peer / a fee invoice paid a little later)
+			p.slowStart = i < 4
+		})
 		r.Eval()
 		r.mu.Lock()
 		announced += o.announced
